@@ -148,6 +148,27 @@ class Interposer:
 
                 def wrapper(fun, x0, atol=1e-6, rtol=1e-6, max_iter=100, verbose=False, _real=real, _site="dsv." + name):
                     forced, rec = plan.decide("fixed_point", _site)
+                    if forced and plan.mode == "nan":
+                        # the iteration diverges: from its second application on the map returns a non-finite iterate
+                        import numpy as np
+
+                        st = {"n": 0}
+
+                        def fun_nan(x, *a, **k):
+                            st["n"] += 1
+                            y = fun(x, *a, **k)
+                            if st["n"] > 1:
+                                y = np.full_like(np.asarray(y, dtype=float), np.nan)
+                            return y
+
+                        try:
+                            out = _real(fun_nan, x0, atol=atol, rtol=rtol, max_iter=min(max_iter, 12))
+                        except Exception:
+                            rec["effective"] = st["n"] > 1
+                            raise
+                        rec["effective"] = st["n"] > 1
+                        rec["silent_return"] = st["n"] > 1
+                        return out
                     if forced:
                         try:
                             out = _real(fun, x0, atol=1e-300, rtol=1e-300, max_iter=1)
